@@ -196,6 +196,17 @@ class Writer:
                 f"(in {segment_addresses_str})."
             )
 
+        if data_length % 2 == 1:
+            raise FlipJumpWriteFjmException(
+                f"data-length must be even - an integer number of ops (in {segment_addresses_str})."
+            )
+
+        if data_start < 0 or data_length < 0 or data_start + data_length > len(self.data):
+            raise FlipJumpWriteFjmException(
+                f"the segment's data range [{data_start}, {data_start + data_length}) is not inside "
+                f"the added data (of length {len(self.data)}) (in {segment_addresses_str})."
+            )
+
         self._validate_segment_not_overlapping(segment_start, segment_length, data_start, data_length)
 
         if self.version in (FJMVersion.RelativeJumpVersion, FJMVersion.CompressedVersion):
